@@ -110,6 +110,7 @@ def make_tree(d, cfg):
     os.makedirs(os.path.join(d, 'users'))
     open(os.path.join(d, 'control', 'me'), 'w').write('mail.example.org\n')
     open(os.path.join(d, 'control', 'timeoutsmtpd'), 'w').write('1000\n')
+    open(os.path.join(d, 'control', 'msgidhost'), 'w').write('msgid.example.org\n')       # host part of a Message-Id added on port 587: not control/me
     open(os.path.join(d, 'control', 'rcpthosts'), 'w').write('example.org\n.sub.example.org\n')
     if cfg['check2822'] == '1':
         open(os.path.join(d, 'control', 'filterconf'), 'w').write('check_strict_rfc2822\n')
